@@ -3436,6 +3436,9 @@ impl Interpreter {
     pub fn eval_bytecode(&mut self, source: &str) -> Result<JsValue, JsError> {
         use crate::compiler::Compiler;
 
+        // Like prepare() and eval(): never run inside what an abandoned or failed run left behind
+        self.discard_previous_run();
+
         let mut parser = crate::parser::Parser::new(source, &mut self.string_dict);
         let program = parser.parse_program()?;
         let chunk = Compiler::compile_program(&program)?;
